@@ -91,6 +91,39 @@ def run(ctx):
             if len(ctx.violations) > 12:
                 return
     ctx.cov["tool_runs_ended_acceptably"] = n_ok
+    # tools that take their inputs as files: apply_case <alignment> <source> <target> <model>, train_case <alignment> <source> <target>
+    giza = (b"# Sentence pair (1) source length 2 target length 2 alignment score : 0.1\nhello World\nNULL ({ }) Hello ({ 1 }) World ({ 2 })\n")
+    filesets = [
+        ("apply_case", "valid", [b"0 ||| 0-0 1-1\n", b"Hello World\n", b"hello world\n", b"123\tHello 3\n"]),
+        ("apply_case", "empty-target-line", [b"0 ||| 0-0\n1 ||| \n", b"hello\nworld\n", b"Hello\n\n", b""]),
+        ("apply_case", "empty-source-and-target", [b"0 ||| \n", b"\n", b"\n", b""]),
+        ("apply_case", "index-too-high", [b"0 ||| 5-5\n", b"a\n", b"b\n", b""]),
+        ("apply_case", "fewer-target-lines", [b"0 ||| 0-0\n1 ||| 0-0\n", b"a\nb\n", b"c\n", b""]),
+        ("apply_case", "bad-model", [b"0 ||| 0-0\n", b"a\n", b"b\n", b"notanumber x y\n"]),
+        ("apply_case", "invalid-utf8", [b"0 ||| 0-0\n", b"a\n", b"\xff\xfe\n", b""]),
+        ("train_case", "valid", [giza, b"Hello World\n", b"hello World\n"]),
+        ("train_case", "empty-lines", [giza, b"\n", b"\n"]),
+        ("train_case", "truncated-alignment", [giza[:40], b"Hello World\n", b"hello World\n"]),
+        ("train_case", "invalid-utf8", [giza, b"Hello World\n", b"\xff World\n"]),
+        ("truecase", "model-with-junk", [b"The (10/12 the\n\n\xff (1/1)\n"]),
+        ("subtract_lines", "binary-subtrahend", [cps["binary"]]),
+        ("commoncrawl_dedupe", "gz-subtrahend", [cps["gz-empty"]]),
+    ]
+    for tool, label, contents in filesets:
+        paths = []
+        for i, c in enumerate(contents):
+            pth = os.path.join(ctx.tmp, f"fs_{tool}_{i}")
+            open(pth, "wb").write(c)
+            paths.append(pth)
+        args = (["--model"] + paths) if tool == "truecase" else paths
+        st, out, err = pvlib.run_tool([ctx.bin(tool)] + args, b"the cat\nTHE \xff dog\n\n", env=pvlib.san_env(), timeout=12)
+        ctx.count("tool-corpus-files", 1, [(tool, label)])
+        if not diagnosed_ok(st, err):
+            kind = pvlib.san_kind(err) or st
+            pvlib.report_violation(ctx, f"c20-files:{tool}:{label}", {
+                "argv": [tool] + [f"<file {i}>" for i in range(len(paths))], "files_hex": [hx(c)[:2000] for c in contents], "case": label, "status": st, "kind": str(kind),
+                "stderr": err.decode(errors="replace")[-900:]},
+                summary=f"{tool} on file set '{label}': ended with {kind} instead of success or a diagnosed error")
 
 
 def formatter_part(ctx):
@@ -161,6 +194,16 @@ def replay(ctx, rp):
         impl = os.path.join(ctx.bdir, "harness", "implfmt")
         for o, x in zip(rp["ops"], pvlib.run_lines(impl, rp["ops"], env=pvlib.san_env())):
             print(o, "->", x)
+    if "files_hex" in rp:
+        paths = []
+        for i, h in enumerate(rp["files_hex"]):
+            pth = os.path.join(ctx.tmp, f"rp_{i}")
+            open(pth, "wb").write(pvlib.unhx(h))
+            paths.append(pth)
+        tool = rp["argv"][0]
+        st, out, err = pvlib.run_tool([ctx.bin(tool)] + ((["--model"] + paths) if tool == "truecase" else paths), b"the cat\nTHE \xff dog\n\n", env=pvlib.san_env(), timeout=12)
+        print("status", st, err.decode(errors="replace")[-1500:])
+        return
     if "argv" in rp:
         print("(stdin truncated in the replay file for large corpus items; corpus item:", rp.get("corpus_item"), ")")
         pvlib.generic_replay(ctx, {"argv": rp["argv"], "stdin_hex": rp["stdin_hex"].rstrip(".")})
